@@ -78,8 +78,44 @@ def make_case(rng, profile_name, steps, wrap=False):
     return dict(case, ops=ops, profile=profile_name, wrap=wrap)
 
 
+def make_reuse_case(rng, wrap=False):
+    """Directed schedule: a channel with traffic is closed, both stream resets complete, a new channel
+    re-uses the stream id and carries traffic under loss / reordering (state left behind by the old
+    channel - sequence numbers, reassembly, reset bookkeeping - must not leak into the new one)."""
+    case = make_case(rng, "clean", 0, wrap)
+    case["profile"] = "reuse"
+    w = W.World(dict(case, ops=[]))
+    w.oplog = []
+    w.apply(["start", "A"])
+    w.apply(["start", "B"])
+    w.heal(400)
+    opener = rng.choice("AB")
+    other = "B" if opener == "A" else "A"
+    w.apply(["create", opener, dict(label="first", ordered=True)])
+    w.heal(400)
+    for _ in range(rng.randrange(1, 7)):
+        for n in (opener, other):
+            if w.ep[n].channels:
+                w.salt += 1
+                w.apply(["send", n, 0, rng.choice("sb"), rng.choice([1, 10, 100, 1300]), w.salt])
+        if rng.random() < 0.7:
+            w.heal(400)
+    w.heal(400)
+    closer = rng.choice("AB")
+    w.apply(["close", closer, 0])
+    w.heal(600)
+    w.apply(["create", rng.choice("AB"), dict(label="second", ordered=True)])
+    if rng.random() < 0.5:
+        w.heal(400)
+    prof = dict(PROFILES["reorder-frag"], channels=2, sizes=[1, 10, 100, 1300], loss=0.1, reorder=0.8, stash=0.0)
+    W.random_ops(rng, case, rng.choice([40, 80, 120]), prof, world=w)
+    return dict(case, ops=list(w.oplog))
+
+
 def _gen(args):
     seed, profile_name, steps, wrap = args
+    if profile_name == "reuse":
+        return make_reuse_case(random.Random(seed), wrap)
     return make_case(random.Random(seed), profile_name, steps, wrap)
 
 
@@ -134,11 +170,37 @@ class Run:
                     ch = self.channels[n][i]
                     if ready == "closed" and "closed_state" not in ch:
                         ch["closed_state"] = st["public"]["state"]
+        # which local channel put the k-th DATA_CHANNEL_OPEN for a stream id on the wire
+        self.open_order = {"A": {}, "B": {}}
+        m = W.sim.install()
+        for n in "AB":
+            seen_tsn = set()
+            for st in w.trace[n]:
+                for d in st["tx"]:
+                    try:
+                        chunks = m.parse_packet(d)[3]
+                    except ValueError:
+                        continue
+                    for c in chunks:
+                        if (isinstance(c, m.DataChunk) and c.protocol == 50 and c.user_data[:1] == b"\x03"
+                                and (c.flags & 2) and c.tsn not in seen_tsn):
+                            seen_tsn.add(c.tsn)
+                            cands = [i for i, (cid, ready, _b) in enumerate(st["public"]["channels"])
+                                     if cid == c.stream_id and ready in ("connecting", "closing")]
+                            self.open_order[n].setdefault(c.stream_id, []).append(cands[-1] if cands else None)
         self.sent = {n: {i: list(v) for i, v in w.sent[n].items()} for n in "AB"}
         self.delivered = {n: w.deliveries(n) for n in "AB"}
         self.events = {n: [(k, ev) for k, st in enumerate(w.trace[n]) for ev in st["events"]] for n in "AB"}
         self.publics = {n: [st["public"] for st in w.trace[n]] for n in "AB"}
         self.inputs = {n: [st["in"][0] for st in w.trace[n]] for n in "AB"}
+        # CPU time spent in the receive path per datagram (slowest one per endpoint)
+        self.slowest = {}
+        for n in "AB":
+            best = (0.0, 0, None)
+            for k, st in enumerate(w.trace[n]):
+                if st.get("cpu", 0.0) > best[0]:
+                    best = (st["cpu"], len(st["in"][1]), k)
+            self.slowest[n] = best
         self.state = {n: w.ep[n].t.state for n in "AB"}
         self.quiescent = {n: w.ep[n].quiescent() for n in "AB"}
         self.armed = {n: [h.name for h in w.ep[n].armed()] for n in "AB"}
@@ -169,12 +231,18 @@ class Run:
 
 
 def _run(case):
+    import gc
+    # the CPU-time oracle measures single handlers: keep the garbage collector out of the measurement
+    gc.collect()
+    gc.disable()
     try:
         r = Run(case, heal=case.get("heal", True))
         return r
     except Exception as exc:  # harness failure: keep visible
         import traceback
         return "HARNESS-EXC " + type(exc).__name__ + ": " + str(exc)[:300] + " " + traceback.format_exc()[-400:]
+    finally:
+        gc.enable()
 
 
 _POOL = None
@@ -284,15 +352,31 @@ class WorldComponent(Component):
 
 
 def _pairs(run):
-    """(src, i, dst, j) for channels that pair up by stream id."""
+    """(src, i, dst, j): channel i opened at src and its peer end j at dst.  A stream id may be reused after
+    a close: the channel that put the k-th DATA_CHANNEL_OPEN for id X on the wire at src pairs with the k-th
+    channel that dst announced with id X; negotiated channels pair up only when the id is unambiguous."""
     for src, dst in (("A", "B"), ("B", "A")):
+        announced_dst = {}
+        for _, ev in run.events[dst]:
+            if ev[0] == "chan":
+                announced_dst.setdefault(ev[2], []).append(ev[1])
+        paired = set()
+        for cid, order in run.open_order[src].items():
+            if any(c["negotiated"] and c["id"] == cid for c in run.channels[src] + run.channels[dst]):
+                continue
+            lst = announced_dst.get(cid, [])
+            for k, i in enumerate(order):
+                if i is None or i in paired:
+                    continue
+                paired.add(i)
+                yield src, i, dst, (lst[k] if k < len(lst) else None)
         for i, ch in enumerate(run.channels[src]):
-            if ch["id"] is None:
+            cid = ch["id"]
+            if cid is None or not ch["negotiated"]:
                 continue
-            # an id that was reused after a close pairs ambiguously: leave those to the trace correspondence
-            if sum(1 for c in run.channels[src] if c["id"] == ch["id"]) != 1:
+            if sum(1 for c in run.channels[src] if c["id"] == cid) != 1:
                 continue
-            js = [j for j, c in enumerate(run.channels[dst]) if c["id"] == ch["id"]]
+            js = [j for j, c in enumerate(run.channels[dst]) if c["id"] == cid]
             if len(js) > 1:
                 continue
             yield src, i, dst, (js[0] if js else None)
@@ -514,3 +598,16 @@ def _reused(run, n, j, other, i):
     cid = run.channels[n][j]["id"]
     return (sum(1 for c in run.channels[n] if c["id"] == cid) > 1
             or sum(1 for c in run.channels[other] if c["id"] == cid) > 1)
+
+
+CPU_LIMIT_S = 0.4
+
+
+def oracle_work(case, run):
+    """No single datagram (at most an MTU of bytes) may cost the receive path CPU time out of proportion."""
+    for n in "AB":
+        cpu, size, k = run.slowest[n]
+        if cpu > CPU_LIMIT_S:
+            return (f"endpoint {n}: handling one datagram of {size} bytes took {cpu:.2f} s of CPU time "
+                    f"(step {k}; limit {CPU_LIMIT_S} s)")
+    return None
